@@ -270,7 +270,13 @@ func c01Dir(ctx *core.Ctx, dotu bool, nrand int) core.Result {
 		for i := range recs {
 			want := wire.EncodeStat(&recs[i], dotu)
 			var got []byte
-			if !safely(&res, "packdir;"+dl, det, func() { got = go9p.PackDir(toDir(&recs[i]), dotu) }) {
+			if !safely(&res, "packdir;"+dl, det, func() {
+				d := toDir(&recs[i])
+				if !dotu && i%2 == 1 {
+					d = ghostDir(d) // (fields of the other dialect: no place on the wire)
+				}
+				got = go9p.PackDir(d, dotu)
+			}) {
 				return
 			}
 			if !bytes.Equal(got, want) {
